@@ -28,7 +28,23 @@ def search(pid, fn_key, digit, mode, budget_s=600, stats=None):
         # property whose function keys name the same method
         short = g.split('::')[-1]
         cands = [h for h in allh if h.get('property') == pid and short in [generic_key(x).split('::')[-1] for x in h.get('fn_keys', [])]]
-    cands.sort(key=lambda h: h.get('est_s') or 60)
+        # prefer harnesses whose function keys share a type/trait name with the function (`UniformInt::sample` for
+        # `impl(UniformSamplerforUniformInt<BInt<N>>)::sample`, not `Standard::sample`); signedness must agree when stated
+        words = set(re.findall(r'[A-Z][A-Za-z0-9]+', g))
+
+        def score(h):
+            sc = 0
+            for x in h.get('fn_keys', []):
+                if generic_key(x).split('::')[-1] == short:
+                    sc = max(sc, len(words & set(re.findall(r'[A-Z][A-Za-z0-9]+', generic_key(x)))))
+            signed_fn = 'BInt' in words
+            cfgs = h.get('config') or ''
+            if ('BInt' in cfgs) != signed_fn and ('BUint' in cfgs or 'BInt' in cfgs):
+                sc -= 1
+            return sc
+        cands.sort(key=lambda h: (-score(h), h.get('est_s') or 60))
+    else:
+        cands.sort(key=lambda h: h.get('est_s') or 60)
     spent = 0
     if stats is not None:
         stats.update(run=0, passed=[], failed=[], unfinished=[], exact=bool(exact))
